@@ -1,4 +1,6 @@
 import XmppModel.Model.Muc
+import XmppModel.Model.MucLive
+import XmppModel.Lemmas.MucLive
 import XmppModel.Lemmas.Muc
 import XmppModel.Generated.C18
 /-!
@@ -628,6 +630,155 @@ theorem C18_takeover_breaks_registration :
        s3.joined 0 = true ∧ s3.managed (s3.cur 0) ≠ some 0 ∧
        ∃ s4, step s3 (.unavail 0) = some s4 ∧ s4.joined 0 = true ∧ s4.joined 1 = false) := by
   simp [step, init, upd]
+
+/-! ### sessions: the limit of the model, as a theorem pair (round G) -/
+
+/-- projection to one session: if all channels live on one session, the session-aware refusal IS the
+LTS's refusal — every theorem about `step` (the invariant `Inv` with `reg`, `Owned`, the membership
+specification) holds of it … -/
+theorem C18_session_guard_one_session (sess : Nat → Nat) (h : ∀ c c', sess c = sess c') (s : St) (a : Act) :
+    stepS sess s a = step s a := by
+  cases a <;> simp only [stepS, step]
+  case joinStart c x =>
+    cases hm : s.managed x with
+    | none => simp
+    | some c' => simp [h c' c]
+
+/-- … in particular it keeps the invariant (a joined channel is registered under the address it holds) -/
+theorem C18_session_guard_keeps_reg_on_one_session (sess : Nat → Nat) (h : ∀ c c', sess c = sess c')
+    {s s' : St} {a : Act} (hi : Inv s) (hs : stepS sess s a = some s') : Inv s' :=
+  inv_step hi (C18_session_guard_one_session sess h s a ▸ hs)
+
+/-- mixed sessions: with two channels of one occupant address on two sessions the session-aware
+refusal lets the second take the registration over; the first is joined but no longer registered
+(`reg` fails), and its unavailable presence ends the membership of the second instead -/
+theorem C18_session_guard_breaks_reg :
+    ∃ s, runS (fun c => c) (init fun _ => 0) [.joinStart 0 0, .avail 0, .joinStart 1 0, .avail 0] = some s ∧
+      s.joined 0 = true ∧ s.managed (s.cur 0) ≠ some 0 ∧ ¬ Inv s ∧
+      ∃ s', stepS (fun c => c) s (.unavail 0) = some s' ∧ s'.joined 0 = true ∧ s'.joined 1 = false := by
+  refine ⟨_, rfl, by simp [step, init, upd], by simp [step, init, upd], ?_, ?_⟩
+  · intro hi
+    have := hi.reg 0
+    simp [step, init, upd] at this
+  · simp [stepS, step, init, upd]
+
+/-! ### two LIVE `Join` calls on one channel: the hand-off slot (round G, `Model/MucLive.lean`) -/
+
+section Live
+open XmppModel.MucLive
+
+/-- the registration invariant under overlapping live calls, one step: a joined channel stays
+registered under the address it holds — given that a call which waits for the slot and made its
+registration itself does not ask for the address the channel is joined under (`hb`; true of the code's
+runs: such a registration is made only where none was, and a hand-off lets the waiting call in) -/
+theorem C18_live_reg_step_partial {s s' : LSt} {a : LAct} (h : s.joined = true → s.managed s.cur = true)
+    (hb : ∀ i, (s.call i).pc = .blocked → (s.call i).fresh = true → s.joined = true → s.cur ≠ (s.call i).req)
+    (hs : MucLive.step s a = some s') : s'.joined = true → s'.managed s'.cur = true := by
+  cases a <;> simp only [MucLive.step] at hs
+  case start i x =>
+    split at hs <;> simp at hs; subst hs; simp [setM]; intro hj; simp [h hj]
+  case fail i e =>
+    split at hs <;> simp at hs <;> subst hs <;> simp [refill, setM] <;> (repeat' split) <;>
+      (first | (intro hj; have := hb i (by assumption) (by assumption) hj; simp_all [setM]) | simp_all [setM])
+  case avail x =>
+    split at hs
+    · simp at hs; subst hs; exact h
+    · split at hs
+      · simp at hs; subst hs; exact h
+      · split at hs
+        · simp at hs; subst hs
+          intro _
+          have hmx : s.managed x = true := by simp_all
+          by_cases hc : s.cur = x
+          · simp [hc, hmx]
+          · have hx : ¬ x = s.cur := fun e => hc e.symm
+            simp [hc, setM, hx, hmx]
+        · split at hs <;> simp at hs <;> subst hs <;> simp [refill] <;> (repeat' split) <;> simp_all
+  case unavail x =>
+    simp at hs; subst hs; simp [setM]; intro h1 h2; simp [h1, h h2]
+
+/-- … and without side condition in every reachable state of the two-call model (inductive invariant
+`LInv` of `Lemmas/MucLive.lean`: reg; a waiting call that made its registration itself does not ask
+for the address the channel is joined under; the slot holds the request of a call that queued it;
+calls wait only while the slot is taken): whatever two live `Join` calls do to each other, a joined
+channel stays registered under the address it holds, so the occupant's unavailable presence finds it -/
+theorem C18_live_registered_while_joined {addr0 : Nat} {s : LSt} (hr : MucLive.Reach addr0 s)
+    (hj : s.joined = true) : s.managed s.cur = true :=
+  (linv_reach hr).reg hj
+
+/-- the request in the hand-off slot always belongs to a call that has queued it and is still pending,
+and a call waits for the slot only while another call's request is in it -/
+theorem C18_live_slot_discipline {addr0 : Nat} {s : LSt} (hr : MucLive.Reach addr0 s) :
+    (∀ i, s.slot = some i → (s.call i).pc = .queued) ∧ (∀ i, s.slot = none → (s.call i).pc ≠ .blocked) :=
+  ⟨(linv_reach hr).sq, (linv_reach hr).nb⟩
+
+/-- the self-presence of the address the call IN THE SLOT asked for completes that call -/
+theorem C18_live_self_presence_completes {s : LSt} {i : Bool} (hslot : s.slot = some i)
+    (hm : s.managed (s.call i).req = true) :
+    ∃ s', MucLive.step s (.avail (s.call i).req) = some s' ∧ (s'.call i).pc = .done .ok ∧ s'.joined = true ∧
+      s'.cur = (s.call i).req := by
+  simp [MucLive.step, hslot, hm, setCall]
+
+/- FULL-STRENGTH STATEMENT (property text: a Join returns success once the self-presence for the
+   address it asked for has arrived), false for the code with two live calls:
+
+     ∀ reachable s, (s.call i).pc ∈ {queued, orphan} → s.managed (s.call i).req →
+       ∃ s', step s (.avail (s.call i).req) = some s' ∧ (s'.call i).pc = .done .ok
+
+   Negation witnesses (both reproduced on the real code: known findings, `C18 liveoverlap …`): -/
+
+/-- joined as 0; call A asks for 10 (queued), call B asks for 20 (blocked); an ordinary presence of 0
+makes the handler take A's request out, B's moves in, the put-back fails: A is an orphan and the
+self-presence of 10 — the channel is registered there — no longer completes it -/
+theorem C18_live_overlap_request_lost :
+    ∃ s s', MucLive.run (MucLive.init 0)
+        [.start false 0, .avail 0, .start false 10, .start true 20, .avail 0] = some s ∧
+      (s.call false).pc = .orphan ∧ s.managed 10 = true ∧ s.slot = some true ∧
+      MucLive.step s (.avail 10) = some s' ∧ (s'.call false).pc = .orphan ∧ s'.cur = 0 := by
+  refine ⟨_, _, rfl, ?_, ?_, ?_, rfl, ?_, ?_⟩ <;> decide
+
+/-- not joined; calls A and B both ask for 0; A is cancelled: its clean-up removes the registration
+B relies on, the room's self-presence is ignored and B stays pending -/
+theorem C18_live_overlap_registration_removed :
+    ∃ s s', MucLive.run (MucLive.init 0) [.start false 0, .start true 0, .fail false .ctxErr] = some s ∧
+      (s.call true).pc = .queued ∧ s.slot = some true ∧ s.managed 0 = false ∧
+      MucLive.step s (.avail 0) = some s' ∧ (s'.call true).pc = .queued ∧ s'.joined = false := by
+  refine ⟨_, _, rfl, ?_, ?_, ?_, rfl, ?_, ?_⟩ <;> decide
+
+/-- with ONE call at a time the slot never drops a request: a mismatching presence leaves the queued
+request where it was (the put-back succeeds) -/
+theorem C18_live_single_call_keeps_request {s : LSt} {i : Bool} {a : Nat} (hslot : s.slot = some i)
+    (hm : s.managed a = true) (hne : (s.call i).req ≠ a) (hno : ∀ j, (s.call j).pc ≠ .blocked) :
+    MucLive.step s (.avail a) = some { s with upres := s.upres + 1 } := by
+  simp [MucLive.step, hslot, hm, hne, refill, hno]
+
+/-- `Leave` returns nil only by taking a departure token, and there is at most one token per processed
+unavailable presence: in every reachable state of the leave model the calls that returned nil plus
+the token still in `depart` do not exceed the presences processed -/
+theorem C18_live_leave_tokens {s : LvSt} (hr : LvReach s) :
+    s.returned + (if s.token then 1 else 0) ≤ s.presences := by
+  induction hr with
+  | init => decide
+  | step _ hs ih =>
+    rename_i s0 s1 a _
+    cases a <;> simp only [lvStep] at hs
+    · simp at hs; subst hs; simpa using ih
+    · simp at hs; subst hs; simp; split at ih <;> omega
+    · split at hs <;> simp at hs
+      subst hs
+      rename_i h
+      simp [h.1] at ih
+      simp; omega
+
+/-- negation witness of "leaving returns when that unavailable presence arrives" for two waiting calls:
+after one presence one call returns, the other cannot (it waits for its context) — reproduced on the
+real code (`C18 liveoverlap leaves`, known finding) -/
+theorem C18_live_overlap_leave_one_token :
+    ∃ s, lvRun lvInit [.leaveStart, .leaveStart, .unavail, .leaveReturn] = some s ∧ s.waiting = 1 ∧
+      s.joined = false ∧ lvStep s .leaveReturn = none := by
+  refine ⟨_, rfl, ?_, ?_, ?_⟩ <;> decide
+
+end Live
 
 /-! ### a presence whose muc#user payload stands twice (round F)
 
